@@ -103,6 +103,14 @@ Definition next_request (l : lstate) : option (request * lstate) :=
           end
   end.
 
+(** [readb] reads at most [max_readb_count - 1] packets per call (framed.rs: `count` starts at 1,
+    is incremented after each handled packet, and the loop breaks when `count >= max_readb_count`,
+    BEFORE the next frame is taken from the socket): what is readable beyond that stays in the
+    transport for the next poll — nothing is dropped. *)
+Definition max_readb_count : nat := 10.
+Definition readb_take (inbox : list packet) : list packet * list packet :=
+  (firstn (max_readb_count - 1) inbox, skipn (max_readb_count - 1) inbox).
+
 (** [readb]: the packets of one batch, replies buffered *)
 Fixpoint read_batch (s : state) (pkts : list packet) (buf : list packet) : Outcome (state * error) (state * list packet) :=
   match pkts with
